@@ -204,7 +204,8 @@ def build_env(envj):
     bd = envj.get("bd")
     if bd:
         f = funcs()[bd["parser"]]
-        env["BD"] = f(os.path.join(tests_dir(), bd["file"]))
+        full = f(os.path.join(tests_dir(), bd["file"]))
+        env["BD"] = {a: full[a] for a in full if a in bd["atoms"]}   # the entries of the atoms used (same arrays)
         env["AT"] = list(bd["atoms"])
         env["ATt"] = tuple(bd["atoms"])
         env["CT"] = list(bd["coord_types"])
@@ -385,15 +386,15 @@ def enc_case(case, env):
     ops = []
     for op in case["ops"]:
         if op["op"] == "call":
-            args = []
-            for a in list(op["a"]) + [op["k"][k] for k in sorted(op["k"])]:
+            def enc_arg(a):
                 if isinstance(a, str) and a.startswith("@"):
-                    args.append("(0 %d)" % index[a[1:]])
-                else:
-                    args.append("(1 %s)" % enc_val(imm_from_json(a), intern, shell_index))
-            # keyword names are part of the call's identity
-            kws = " ".join("(1 %d)" % intern(k) for k in sorted(op["k"]))
-            ops.append("(0 %d (%s) (%s))" % (FUNC_ID[op["fn"]], " ".join(args), kws))
+                    return "(0 %d)" % index[a[1:]]
+                return "(1 %s)" % enc_val(imm_from_json(a), intern, shell_index)
+            args = [enc_arg(a) for a in op["a"]]
+            for k in sorted(op["k"]):   # keyword arguments: the name (an immediate str) then the value
+                args.append("(1 (1 %d))" % intern("kw:" + k))
+                args.append(enc_arg(op["k"][k]))
+            ops.append("(0 %d (%s))" % (FUNC_ID[op["fn"]], " ".join(args)))
         elif op["op"] == "update":
             fld = ["angmom", "coord", "exps", "coeffs", "coord_type"].index(op["field"])
             ops.append("(1 %d %d %s)" % (op["shell"], fld, enc_val(imm_from_json(op["value"]), intern, shell_index)))
@@ -523,12 +524,13 @@ def run_history(case, pred=None):
             before = snap_world(env)
             if kind == "call":
                 stats["calls"] += 1
+                args = [resolve(a, env) for a in op["a"]]
+                kw = {k: resolve(v, env) for k, v in op["k"].items()}
                 try:
-                    args = [resolve(a, env) for a in op["a"]]
-                    kw = {k: resolve(v, env) for k, v in op["k"].items()}
-                    if op["fn"] in ("parse_nwchem", "parse_gbs"):
-                        args[0] = os.path.join(tests_dir(), args[0])
-                    res = F[op["fn"]](*args, **kw)
+                    if op["fn"] in ("parse_nwchem", "parse_gbs") and isinstance(args[0], str):
+                        res = F[op["fn"]](os.path.join(tests_dir(), args[0]), *args[1:], **kw)
+                    else:
+                        res = F[op["fn"]](*args, **kw)
                     out = ("ok", digest(res))
                 except Exception as exc:  # noqa: BLE001
                     res = None
@@ -556,9 +558,8 @@ def run_history(case, pred=None):
                 out = (out[0], out[1] if out[0] == "ok" else "")
                 outcomes.append(out)
                 # which earlier call must have given the same outcome?
-                refs = [a for a in list(op["a"]) + list(op["k"].values()) if isinstance(a, str) and a.startswith("@")]
-                key = (op["fn"], json.dumps([op["a"], op["k"]], sort_keys=True),
-                       tuple(repr(snap(env[r[1:]], ids=False)) for r in refs), before["numpy.geterr"])
+                key = (op["fn"], tuple(repr(snap(v, ids=False)) for v in args),
+                       tuple((k, repr(snap(kw[k], ids=False))) for k in sorted(kw)), before["numpy.geterr"])
                 first_h = keys.setdefault(key, idx)
                 first = first_h
                 if pred is not None:
@@ -1125,7 +1126,12 @@ def run(rep, tier, seed, model, replay):
         rep.violation(case, detail)
     # the same commands inside Coq
     if pairs and model is not None:
-        sub = pairs if tier == "quick" or replay is not None else pairs[::8]
+        # every history whose encoding is small enough (quick) / every 6th (thorough), at most ~1.2 MB of terms
+        sub, size = [], 0
+        for pr in (pairs if tier == "quick" or replay is not None else pairs[::6]):
+            if len(pr[0]) + len(pr[1]) <= 60000 and size + len(pr[0]) + len(pr[1]) <= 1200000:
+                sub.append(pr)
+                size += len(pr[0]) + len(pr[1])
         n, bad = coq_crosscheck(sub, tier)
         tot["in_coq_vm_compute_histories"] = n
         if bad:
